@@ -205,6 +205,48 @@ pub fn eval_adjacent(pre: Option<(Option<u32>, u8)>, e1: u32, e2: u32, b: u8, st
     }
 }
 
+/// A stream without ECI designators read as a string: the reference decoder R5 gives the bytes, ISO 8859-1
+/// gives the characters. Only disagreements on streams both sides accept (or a charset verdict) are judged.
+pub fn eval_default_charset_stream(cw: &[u8], st: &mut Stats) -> Result<(), String> {
+    let p = match crate::refmodel::decoder::decode(cw) {
+        Ok(p) => p,
+        Err(_) => {
+            st.count("reference_decoder_rejects_not_judged");
+            return Ok(());
+        }
+    };
+    if p.fnc1_start || p.body.contains(&0x1D) {
+        // FNC1 (as GS) inside the data is outside the character-set property
+        st.count("stream_with_fnc1_or_gs_not_judged_here");
+        return Ok(());
+    }
+    if !p.eci.is_empty() {
+        st.count("stream_with_eci_not_judged_here");
+        return Ok(());
+    }
+    // the macro envelope (with its RS, GS, EOT control characters) is passed on verbatim; the body is data
+    let want: Option<String> = p.body.iter().map(|b| charset::latin1(*b)).collect::<Option<String>>().map(|body| match p.macro_cw {
+        Some(236) => format!("[)>\u{1e}05\u{1d}{}\u{1e}\u{4}", body),
+        Some(237) => format!("[)>\u{1e}06\u{1d}{}\u{1e}\u{4}", body),
+        _ => body,
+    });
+    let got = guarded(|| decode_str(cw)).map_err(|p| format!("decode_str: {}", p))?;
+    match (got, want) {
+        (Ok(g), Some(w)) => {
+            if g != w {
+                return Err(format!("stream {:?}: decode_str gives {:?}, the bytes read as ISO 8859-1 give {:?}", cw, g, w));
+            }
+            st.count("default_charset_streams_mapped");
+            st.count("nontrivial");
+        }
+        (Ok(g), None) => return Err(format!("stream {:?} carries bytes undefined in ISO 8859-1 but decode_str gives {:?}", cw, g)),
+        (Err(DataDecodingError::CharsetError), Some(w)) => return Err(format!("stream {:?}: CharsetError, the bytes read as ISO 8859-1 give {:?}", cw, w)),
+        (Err(DataDecodingError::CharsetError), None) => st.count("charset_error"),
+        (Err(_), _) => st.count("crate_rejects_stream_not_judged"),
+    }
+    Ok(())
+}
+
 fn cdesc(eci: Option<u32>, bytes: &[u8], carrier: Carrier) -> Value {
     json!({"kind": "charset", "eci": eci, "bytes": hex(bytes), "carrier": format!("{:?}", carrier)})
 }
@@ -302,6 +344,52 @@ pub fn run(ctx: &Ctx) -> i32 {
             }
         }
     });
+    // 3e. streams without any designator, bare and behind a macro 05/06 codeword, whose first codewords
+    //     take every value: Base256 fields of every length 1..=249 (the randomised length codeword runs
+    //     through the values), C40/Text/X12 first pairs and EDIFACT first groups over all first bytes
+    ctx.par(256, |c, w| {
+        let b = c as u8;
+        w.label(|| format!("default character set streams, free byte {}", b));
+        let sdesc = |cw: &[u8]| json!({"kind": "stream", "codewords": hex(cw)});
+        for head in [&[][..], &[236u8][..], &[237u8][..]] {
+            // Base256 field of length b (1..=249)
+            if (1..=249).contains(&b) {
+                for fill in [0xE9u8, 0x41, 0xA0] {
+                    let mut cw = head.to_vec();
+                    cw.push(231);
+                    for v in std::iter::once(b).chain(std::iter::repeat(fill).take(b as usize)) {
+                        let pos = cw.len() + 1;
+                        cw.push(rand255(v, pos));
+                    }
+                    w.check(cw.len() as u64, || sdesc(&cw), |st| eval_default_charset_stream(&cw, st));
+                }
+            }
+            // C40 / Text / X12: first pair (b, c2), unlatch, one ASCII character
+            for latch in [230u8, 239, 238] {
+                for c2 in [0u8, 1, 85, 170, 241, 255] {
+                    let mut cw = head.to_vec();
+                    cw.extend([latch, b, c2, 254, 0x42]);
+                    w.check(cw.len() as u64, || sdesc(&cw), |st| eval_default_charset_stream(&cw, st));
+                }
+            }
+            // EDIFACT: first group (b, x, y) ending with the unlatch value where possible
+            for x in [0x1Fu8, 0x7C, 0xF1, 0x41] {
+                for y in [0x00u8, 0x5F, 0xF1] {
+                    let mut cw = head.to_vec();
+                    cw.extend([240, b, x, y, 0x42]);
+                    w.check(cw.len() as u64, || sdesc(&cw), |st| eval_default_charset_stream(&cw, st));
+                }
+            }
+            // ASCII: the byte as the first and as the second codeword
+            for other in [0x42u8, 235, 142] {
+                for order in [0, 1] {
+                    let mut cw = head.to_vec();
+                    if order == 0 { cw.extend([b, other, 0x42]) } else { cw.extend([other, b, 0x42]) };
+                    w.check(cw.len() as u64, || sdesc(&cw), |st| eval_default_charset_stream(&cw, st));
+                }
+            }
+        }
+    });
     // 3c. designators directly behind each other (no data between them), in both numeric orders,
     //     at the start of the stream and after a first segment
     ctx.par(256, |c, w| {
@@ -350,7 +438,7 @@ pub fn run(ctx: &Ctx) -> i32 {
         "distinct_nontrivial": ctx.counter("nontrivial"),
         "rule": format!("write side: all 1,000,000 ECI numbers through encode_eci: codewords after 241 equal the closed formulas of ISO/IEC 16022 Table 6, are read back (hook eci_spans) as the same number, decode_data reports ECICode; \
 read side: every designator sequence of the length its first codeword demands (127 + 64*256 + 16*65536) and every truncation: accepted with the right number iff well formed; character sets: ECI none/3/11/13/26/27 x all 256 bytes x ASCII(upper shift) and Base256 carriage, \
-all byte pairs in Base256 (one fifth in ASCII), sections of 15..48 filler bytes with every byte value at five positions, two segments [ECI e1] a [ECI e2] b for all character-set pairs and bytes a, b, designators directly behind each other [ECI e1][ECI e2] b in both numeric orders (bare and after a first segment), all 16.7 M 3-byte sequences and all sequences of length 3..4 over a 19-value boundary alphabet under ECI 26{}: decode_str equals ISO 8859-1/-9/-11 by rule resp. passes exactly the RFC 3629 / 7-bit sequences, CharsetError elsewhere. All cases distinct; \
+all byte pairs in Base256 (one fifth in ASCII), sections of 15..48 filler bytes with every byte value at five positions, two segments [ECI e1] a [ECI e2] b for all character-set pairs and bytes a, b, streams without designators (bare and behind a macro 05/06 codeword) whose first codewords take every value - Base256 fields of every length 1..249, C40/Text/X12 first pairs, EDIFACT first groups, ASCII pairs - read as ISO 8859-1 through the reference decoder R5; designators directly behind each other [ECI e1][ECI e2] b in both numeric orders (bare and after a first segment), all 16.7 M 3-byte sequences and all sequences of length 3..4 over a 19-value boundary alphabet under ECI 26{}: decode_str equals ISO 8859-1/-9/-11 by rule resp. passes exactly the RFC 3629 / 7-bit sequences, CharsetError elsewhere. All cases distinct; \
 non-trivial = number round trip, malformed designator rejected, or defined character mapped.", if ctx.tier == Tier::Thorough { " (thorough: boundary alphabet also at length 5)" } else { "" }),
         "exhaustive": true,
         "wellformed_designators_beyond_999999_accepted_not_judged": ctx.counter("wellformed_beyond_999999"),
@@ -368,6 +456,7 @@ pub fn replay(case: &Value) -> Result<(), String> {
         "number" => eval_number(case["eci"].as_u64().ok_or("eci")? as u32, &mut st),
         "designator" => eval_designator(&unhex(case["seq"].as_str().ok_or("seq")?), &mut st),
         "two" => eval_two_segments(case["e1"].as_u64().map(|e| e as u32), case["a"].as_u64().ok_or("a")? as u8, case["e2"].as_u64().ok_or("e2")? as u32, case["b"].as_u64().ok_or("b")? as u8, &mut st),
+        "stream" => eval_default_charset_stream(&unhex(case["codewords"].as_str().ok_or("codewords")?), &mut st),
         "adj" => {
             let pre = if case["pre"].as_bool().unwrap_or(false) { Some((case["e0"].as_u64().map(|e| e as u32), case["a"].as_u64().ok_or("a")? as u8)) } else { None };
             eval_adjacent(pre, case["e1"].as_u64().ok_or("e1")? as u32, case["e2"].as_u64().ok_or("e2")? as u32, case["b"].as_u64().ok_or("b")? as u8, &mut st)
